@@ -365,7 +365,12 @@ func (c *c16Case) step(op c16Op) error {
 				"returned %s%s", c16Names[b], op, exp.Class,
 				c16ErrStr(r.err), c16KeyHint(b, op, exp))
 		}
-		if r.err != nil && len(exp.AnyOf) > 0 &&
+		if r.err != nil && len(exp.AnyOf) > 0 && exp.DupID &&
+			!c16IsAny(r.err, exp.AnyOf) {
+
+			// duplicate id: any refusal is acceptable
+			c.labels["register:dup-id-refused-first"]++
+		} else if r.err != nil && len(exp.AnyOf) > 0 &&
 			!c16IsAny(r.err, exp.AnyOf) && relax[b] != "" {
 
 			relUsed[relax[b]] = true
